@@ -26,5 +26,5 @@ mod c11;
 #[cfg(all(kani, feature = "c08"))]
 mod c08;
 
-#[cfg(all(kani, any(feature = "c03", feature = "c01")))]
+#[cfg(all(kani, any(feature = "c03", feature = "c01", feature = "c07")))]
 mod c03;
